@@ -12,6 +12,23 @@ from ..sweep import exc_fingerprint, graph_case, graph_spec, staged, sweep
 PROP = "C16"
 
 
+def _alternate(a, b, pairs=True):
+    """Advance two live iterators in strict alternation until both are exhausted; return what each yielded."""
+    out = ([], [])
+    live = [a, b]
+    while any(x is not None for x in live):
+        for i in (0, 1):
+            if live[i] is None:
+                continue
+            try:
+                v = next(live[i])
+            except StopIteration:
+                live[i] = None
+                continue
+            out[i].append(v[0] if pairs else v)
+    return out
+
+
 def check_views(scfg, report):
     hier = Hier(scfg)
     # whole-hierarchy iteration
@@ -39,6 +56,18 @@ def check_views(scfg, report):
             if hier.flat.get(n) is None or hier.flat[n].block is not b:
                 report("iter/wrong-block", f"iteration pairs {n!r} with a block that is not the one stored under that name")
                 break
+    if items is not None:
+        # history: two iterators alive at once, advanced alternately, and a second traversal, yield what one traversal yields
+        try:
+            a, b = iter(scfg), iter(scfg)
+            got_a, got_b = _alternate(a, b)
+            again = [n for n, _ in scfg]
+            if got_a != items or got_b != items or again != items:
+                report("iter/interleaved", f"one traversal yields {items}; two iterators advanced alternately yield {got_a} and {got_b}; "
+                                           f"a further traversal yields {again}")
+        except Exception as e:  # noqa: BLE001
+            et, site = exc_fingerprint(e)
+            report("iter/interleaved-raises", f"two iterators advanced alternately raised {et} at {site}")
     # concealed view of every (sub)graph
     for level, region, depth in hier.levels:
         where = region.name if region else "<top>"
@@ -48,6 +77,16 @@ def check_views(scfg, report):
             et, site = exc_fingerprint(e)
             report("view/raises", f"concealed view of {where} raised {et} at {site}")
             continue
+        try:
+            vobj = level.concealed_region_view
+            got_a, got_b = _alternate(iter(vobj), iter(level.concealed_region_view), pairs=False)
+            again = list(vobj)
+            if got_a != view or got_b != view or again != view:
+                report("view/interleaved", f"one traversal of the view of {where} yields {view}; two iterators advanced alternately yield "
+                                           f"{got_a} and {got_b}; a further traversal yields {again}")
+        except Exception as e:  # noqa: BLE001
+            et, site = exc_fingerprint(e)
+            report("view/interleaved-raises", f"two view iterators of {where} advanced alternately raised {et} at {site}")
         cnt = collections.Counter(view)
         keys = set(level.graph)
         if set(cnt) != keys:
